@@ -103,6 +103,42 @@ inline std::string json_field(const std::string &text, const std::string &key) {
 inline std::string read_file(const std::string &p) { std::ifstream f(p, std::ios::binary); std::stringstream ss; ss << f.rdbuf(); return ss.str(); }
 inline std::string tail(const std::string &s, size_t n) { return s.size() > n ? s.substr(s.size() - n) : s; }
 
+// Runs the tasks in forked children (at most opt.jobs at a time), each with its own Shm; merges counters, samples and
+// violations into the caller's Shm.  A child that dies becomes a "crash" violation carrying its history in flight.
+inline void parallel(const std::vector<std::function<void()>> &tasks) {
+    size_t n = tasks.size();
+    Shm *pool = (Shm *)mmap(nullptr, sizeof(Shm) * n, PROT_READ | PROT_WRITE, MAP_SHARED | MAP_ANONYMOUS, -1, 0);
+    if (pool == MAP_FAILED) { perror("mmap"); _exit(3); }
+    Shm *mine = shm;
+    std::vector<pid_t> pid(n, -1); std::vector<int> status(n, 0);
+    size_t next = 0, running = 0, done = 0;
+    fflush(stdout); fflush(stderr);
+    while (done < n) {
+        while (next < n && running < (size_t)std::max(1, opt.jobs)) {
+            memset(&pool[next], 0, sizeof(Shm)); pool[next].exhaustive = 1;
+            pid_t p = fork();
+            if (p == 0) { shm = &pool[next]; tasks[next](); shm->done = 1; _exit(0); }
+            pid[next++] = p; running++;
+        }
+        int st; pid_t r = waitpid(-1, &st, 0);
+        if (r <= 0) break;
+        for (size_t i = 0; i < n; i++) if (pid[i] == r) { status[i] = st; running--; done++; }
+    }
+    shm = mine;
+    for (size_t i = 0; i < n; i++) {
+        Shm &c = pool[i];
+        shm->evaluations += c.evaluations; shm->nontrivial += c.nontrivial; shm->states += c.states; shm->transitions += c.transitions; shm->validated += c.validated; shm->suppressed += c.suppressed;
+        if (!c.exhaustive) shm->exhaustive = 0;
+        for (int k = 0; k < c.nsamples && k < 2; k++) sample(c.samples[k]);
+        for (int k = 0; k < c.nviol; k++) violation(c.viol[k].sig, c.viol[k].msg, c.viol[k].hist);
+        if (!c.done) {
+            shm->exhaustive = 0;
+            violation("crash", WIFSIGNALED(status[i]) ? fmt("crash: killed by signal %d (see the replay for the sanitizer report)", WTERMSIG(status[i])) : fmt("crash: exit status %d", WEXITSTATUS(status[i])), c.marker);
+        }
+    }
+    munmap(pool, sizeof(Shm) * n);
+}
+
 struct ReplayOutcome { bool violated; std::string what; };
 
 // Runs fn in a forked child with fresh shared state; returns how it ended.
